@@ -438,7 +438,7 @@ func (w *walker) bindPlain(tok string) {
 	w.rest = true
 }
 
-var plainTokens = []string{"file", "x", "-", "a b", "é世", "0", "=", "k:v", "plain", "---x", "", "--- y", "--"}
+var plainTokens = []string{"file", "x", "-", "a b", "é世", "0", "=", "k:v", "plain", "---x", "", "--- y", "--", "help", "help", "version", "h"}
 
 func (w *walker) plainToken() string {
 	r := w.r
